@@ -238,7 +238,8 @@ func c01PerCase(rt *rapid.T, s *Scenario, ev *Evidence) []Finding {
 }
 
 func runC01(s *Scenario, opts lab.NodeOpts, ev *Evidence) []Finding {
-	rec, w, err := recordCase(s, false)
+	wantTrace := ev != nil && ev.Evaluations < 2
+	rec, w, err := recordCase(s, wantTrace)
 	if err != nil {
 		return nil
 	}
@@ -259,6 +260,15 @@ func runC01(s *Scenario, opts lab.NodeOpts, ev *Evidence) []Finding {
 		ev.Count("c01.nodeB.db."+opts.DB, 1)
 		nt := w.Classes["c01.ok-custom-tx"] > 0 && w.Classes["c01.failed-tx"] > 0 && (stats["restarts-after-tx"] > 0 || opts.DB != "mem" || opts.Pruning != "default")
 		ev.Eval(s.Hash(), nt)
+		if wantTrace && msg == "" {
+			var crashes []string
+			for i, b := range s.Blocks {
+				if b.Crash > 0 {
+					crashes = append(crashes, fmt.Sprintf("block %d: restart phase %d k=%d", i, b.Crash, b.CrashK))
+				}
+			}
+			ev.Sample(map[string]interface{}{"node_b": opts, "restart_points": crashes, "history": w.Trace}, 3)
+		}
 		if len(c01Later) < 40 && w.Classes["c01.ok-custom-tx"] > 0 {
 			c01Later = append(c01Later, rec)
 		}
